@@ -249,7 +249,7 @@ class C07(Prop):
             "both worlds. evaluations = "
             "branch runs; distinct = (target kind, fault kind, normalised failing call / point / file, outcome class); "
             "non-trivial = the fault actually fired inside the target command")
-    assumptions = ["scenarios are sampled, faults within a scenario are enumerated exhaustively",
+    assumptions = ["scenarios are sampled, faults within a scenario are enumerated exhaustively (single faults; the thorough tier adds 40 sampled PAIRS of git-call faults per task)",
                    "a real git subprocess is atomic for the fault injector",
                    "the user's own git command is never a fault target", "stderr is not compared",
                    "a call that exits 0 with a truncated answer (short:*) is held to every clause except 'no attribution is "
@@ -414,6 +414,15 @@ class C07(Prop):
                 for kind in GIT_KINDS:
                     faults.append({"family": "git", "idx": c["idx"], "kind": kind,
                                    "argv": [x for x in c["argv"] if not x.startswith("/")][-4:]})
+            if tier != "quick" and len(internal) >= 2:
+                # pairs of faults: two internal calls of the same command go wrong (the second one may also be the kill)
+                for _ in range(40):
+                    c1, c2 = sorted(rng.sample(internal, 2), key=lambda c: c["idx"])
+                    faults.append({"family": "git", "idx": c1["idx"], "kind": rng.choice(["fail:128", "fail:1"]),
+                                   "idx2": c2["idx"], "kind2": rng.choice(["fail:128", "fail:1", "kill"]),
+                                   "argv": [x for x in c1["argv"] if not x.startswith("/")][-4:],
+                                   "argv2": [x for x in c2["argv"] if not x.startswith("/")][-4:]})
+                ex.probe("enumerated.fault_pairs", 40)
         elif fam == "journal":
             for name, occ in points:
                 for kind in JOURNAL_KINDS:
@@ -509,6 +518,9 @@ class C07(Prop):
             if kind == "short:half":
                 kind = "short:20"
             env["SIMGIT_PLAN"] = "%d=%s" % (fault["idx"], kind)
+            if fault.get("idx2"):
+                # a pair of faults in one command (thorough tier): a second internal call fails or kills as well
+                env["SIMGIT_PLAN"] += ";%d=%s" % (fault["idx2"], fault["kind2"])
         elif fault["family"] == "journal":
             kind = fault["kind"]
             if kind == "torn:half":
@@ -551,7 +563,8 @@ class C07(Prop):
             ex.fault("%s.%s" % (fault["family"], fault["kind"].split(":")[0]))
         state_b = observable_state(b.w, repo_b)
         code = res.get("code")
-        killed = fault.get("kind") in ("kill", "crash") or (fault.get("kind") or "").startswith("torn")
+        killed = fault.get("kind") in ("kill", "crash") or (fault.get("kind") or "").startswith("torn") or \
+            fault.get("kind2") == "kill"
         outcome = None
         detail = {"argv": target_op["argv"], "fault": fault, "gitai_exit": code, "plain_exit": ref["code"],
                   "proxied_git_ran": proxied_ran, "gitai_err": (res.get("err") or "")[-300:]}
